@@ -330,3 +330,31 @@ func ErrClass(err error) string {
 	}
 	return "local:" + fmt.Sprintf("%.60s", err.Error())
 }
+
+// NewRawAtt builds an attachment handle without attaching (for calls made in
+// states where the client is not attached).
+func NewRawAtt(c *MClient, d *document.Document, docID string, stop chan struct{}) *Att {
+	return &Att{C: c, Doc: d, DocID: docID, stop: stop}
+}
+
+// DetachBeginNoClear is DetachBegin without the presence clear (documents
+// attached with presence disabled).
+func (a *Att) DetachBeginNoClear(ctx context.Context) *Inflight {
+	pb, err := converter.ToChangePack(a.Doc.CreateChangePack())
+	if err != nil {
+		return &Inflight{A: a, Err: err, Kind: "detach"}
+	}
+	res, err := a.C.rpc.DetachDocument(ctx, shard(connect.NewRequest(&api.DetachDocumentRequest{
+		ClientId: a.C.ID.String(), DocumentId: a.DocID, ChangePack: pb,
+	}), a.C.APIKey, a.Doc.Key().String()))
+	if err != nil {
+		a.C.rec(CallRec{Kind: "detach", Client: a.C.ID, Req: pb, Err: err})
+		return &Inflight{A: a, Req: pb, Err: err, Kind: "detach"}
+	}
+	pack, err := converter.FromChangePack(res.Msg.ChangePack)
+	if err != nil {
+		return &Inflight{A: a, Req: pb, Err: err, Kind: "detach"}
+	}
+	a.C.rec(CallRec{Kind: "detach", Client: a.C.ID, Req: pb, Resp: pack})
+	return &Inflight{A: a, Req: pb, Resp: pack, Kind: "detach"}
+}
